@@ -163,7 +163,7 @@ def tstepAccept (sh : Sh) (t : Thread) (ch : Choice) : Option TRes :=
   | .reset, .go =>
     match sh.ld with
     | some d => some ⟨sh, { t with seen := some d, created := true, armed := some d, buf := false, c := true, pc := .sel }⟩
-    | none => some ⟨sh, { t with seen := none, pc := .sel }⟩
+    | none => some ⟨sh, { t with seen := none, c := false, pc := .sel }⟩
   | .sel, .tok => if 0 < sh.backlog then some ⟨{ sh with backlog := sh.backlog - 1 }, t.finish .ok sh.now⟩ else none
   | .sel, .timeout => if t.c && t.buf then some ⟨sh, t.finish .timeout sh.now⟩ else none
   | .sel, .err => if sh.lerr then some ⟨sh, t.finish .sockerr sh.now⟩ else none
